@@ -2,8 +2,8 @@ package scen
 
 import (
 	"context"
-	mrand "math/rand/v2"
 	"fmt"
+	mrand "math/rand/v2"
 	"net/netip"
 	"os"
 	"path/filepath"
